@@ -40,8 +40,8 @@ static int build_mat(int id, tmat_t *T) {
     for (int i = 0; i < n; i++) for (int j = 0; j < n; j++) D[i][j] = generic_value(i, j, id + 1);
     tm_from_dense(T, n, n, pat, D); return n;
 }
-typedef struct { int mat, drv, P, nr; long lwork; long k; int single; int fill; } fc_t;
-static int fc_str(const fc_t *c, const char *fam, char *b, size_t bl) { return snprintf(b, bl, "fam=%s mat=%d drv=%d P=%d nr=%d lwork=%ld k=%ld single=%d fill=%d", fam, c->mat, c->drv, c->P, c->nr, c->lwork, c->k, c->single, c->fill); }
+typedef struct { int mat, drv, P, nr; long lwork; long k; int single; int fill; int f6, f7, f8; } fc_t;
+static int fc_str(const fc_t *c, const char *fam, char *b, size_t bl) { return snprintf(b, bl, "fam=%s mat=%d drv=%d P=%d nr=%d lwork=%ld k=%ld single=%d fill=%d f6=%d f7=%d f8=%d", fam, c->mat, c->drv, c->P, c->nr, c->lwork, c->k, c->single, c->fill, c->f6, c->f7, c->f8); }
 
 /* run one case in THIS process and leave the result in shared memory */
 static void run_here(const fc_t *c) {
@@ -49,6 +49,7 @@ static void run_here(const fc_t *c) {
     int n = build_mat(c->mat, &T);
     f.driver = c->drv; f.nprocs = c->P; f.as_nr = c->nr; f.lwork = c->lwork; f.maxsuper = n; f.w = 1 + 3 * (c->mat % 2); f.relax = 1 + c->mat % 3; f.nrhs = 1; f.ordering = c->mat % 4;
     if (c->fill) { f.fill7 = c->fill; f.fill8 = c->fill; }
+    if (c->f6) f.fill6 = c->f6; if (c->f7) f.fill7 = c->f7; if (c->f8) f.fill8 = c->f8;
     if (f.driver == DRV_GSSVX) f.fact = (c->mat % 2) ? EQUILIBRATE : DOFACT;
     vf_arm_fail_k = c->k; vf_arm_single = c->single;
     G->have = 0;
@@ -69,7 +70,7 @@ static int run_child(const fc_t *c, int timeout_s, char *cd, size_t cdl) {
     int fd = memfd_create("stderr", 0);
     fflush(NULL); vf_sh->where[0] = 0;
     pid_t pid = fork();
-    if (pid == 0) { dup2(fd, 2); signal(SIGALRM, vf_alarm); vf_install_fault_handlers(); alarm(timeout_s); run_here(c); fflush(NULL); _exit(0); }
+    if (pid == 0) { dup2(fd, 2); signal(SIGALRM, vf_alarm); vf_install_fault_handlers(); vf_case_timer(timeout_s); run_here(c); fflush(NULL); _exit(0); }
     int st = 0; waitpid(pid, &st, 0); vf_last_child = pid;
     errtext[0] = 0; { off_t len = lseek(fd, 0, SEEK_END); if (len > 0) { if (len > (off_t)sizeof errtext - 1) len = sizeof errtext - 1; lseek(fd, 0, SEEK_SET); ssize_t q = read(fd, errtext, len); errtext[q > 0 ? q : 0] = 0; } close(fd); }
     cd[0] = 0;
@@ -93,6 +94,7 @@ static const char *site_of(const char *cd) { const char *s = strchr(cd, '@'); re
 /* ------------------------------------------------------------------ families */
 static void judge_outcome(const fc_t *c, const char *fam, int oc, const char *cd, const fc_t *ref_c, unsigned long long ref_hash, int n) {
     char cs[200]; fc_str(c, fam, cs, sizeof cs); char sig[110];
+    if (!strcmp(fam, "lworktight")) fam = "lwork";       /* same fault class, same signatures (the case string keeps the family) */
     G->runs++; G->judged++;
     note_distinct(hmix(hmix(c->k * 131 + c->lwork, c->mat * 64 + c->drv * 8 + c->P), oc == OC_RETURN ? (unsigned long long)G->info : 1000 + oc));
     switch (oc) {
@@ -134,7 +136,7 @@ int main(int argc, char **argv) {
     char cd[200]; static tmat_t T;
     if (one) { const char *p; char f2[16] = "alloc";
 #define GI(key, var) if ((p = strstr(one, key "="))) var = atol(p + strlen(key) + 1)
-        GI("mat", c.mat); GI("drv", c.drv); GI(" P", c.P); GI("nr", c.nr); GI("lwork", c.lwork); GI(" k", c.k); GI("single", c.single); GI("fill", c.fill);
+        GI("mat", c.mat); GI("drv", c.drv); GI(" P", c.P); GI("nr", c.nr); GI("lwork", c.lwork); GI(" k", c.k); GI("single", c.single); GI("fill", c.fill); GI("f6", c.f6); GI("f7", c.f7); GI("f8", c.f8);
         if ((p = strstr(one, "fam="))) sscanf(p + 4, "%15s", f2);
         int n = build_mat(c.mat, &T); int oc = run_child(&c, timeout, cd, sizeof cd); judge_outcome(&c, f2, oc, cd, NULL, 0, n);
         out_stats(PROP, "\"runs\":1,\"violations\":%ld", G->viol); return G->viol ? 1 : 0; }
@@ -168,8 +170,29 @@ int main(int argc, char **argv) {
             fc_t cc = c; cc.lwork = lw; int oo = run_child(&cc, timeout, cd, sizeof cd); judge_outcome(&cc, fam, oo, cd, &ref, ref_hash, n);
         }
     } else if (!strcmp(fam, "fill")) {
-        /* too small estimates for U (sp_ienv 7) and for L's subscripts (sp_ienv 8): every positive size from 1 to sufficient */
-        for (int f = 1 + isl; f <= 60; f += nsl) { fc_t cc = c; cc.fill = f; int oo = run_child(&cc, timeout, cd, sizeof cd); judge_outcome(&cc, fam, oo, cd, NULL, 0, n); }
+        /* too small estimates for the L values (sp_ienv 6), for U (sp_ienv 7) and for L's subscripts (sp_ienv 8): every positive size from 1 to
+           sufficient, each estimate alone (the others at their defaults) and the last two together */
+        long idx = 0;
+        for (int which = 0; which < 4; which++) for (int f = 1; f <= 60; f++, idx++) {
+            if (idx % nsl != isl) continue;
+            fc_t cc = c; if (which == 0) cc.fill = f; else if (which == 1) cc.f7 = f; else if (which == 2) cc.f8 = f; else cc.f6 = f;
+            int oo = run_child(&cc, timeout, cd, sizeof cd); judge_outcome(&cc, fam, oo, cd, &ref, ref_hash, n); }
+    } else if (!strcmp(fam, "lworktight")) {
+        /* user workspace with TIGHT estimates: the smallest sufficient sp_ienv(7) and sp_ienv(8) are found first (internal memory), then every
+           workspace size in steps of `step` bytes: the window in which the L/U part fits but the per-thread working arrays do not is reached */
+        int m7 = 0, m8 = 0;
+        for (int f = 1; f <= 80 && !m7; f++) { fc_t cc = c; cc.f7 = f; int oo = run_child(&cc, timeout, cd, sizeof cd); if (oo == OC_RETURN && G->info == 0) m7 = f; }
+        for (int f = 1; f <= 80 && !m8; f++) { fc_t cc = c; cc.f8 = f; int oo = run_child(&cc, timeout, cd, sizeof cd); if (oo == OC_RETURN && G->info == 0) m8 = f; }
+        if (!m7 || !m8) { char cs[200]; fc_str(&c, fam, cs, sizeof cs); viol("C14:lworktight:no-sufficient-estimate", cs, "no estimate up to 80 entries sufficed (sp_ienv(7): %d, sp_ienv(8): %d)", m7, m8); }
+        else {
+            fc_t q = c; q.lwork = -1; q.f7 = m7; q.f8 = m8; int o = run_child(&q, timeout, cd, sizeof cd); long est = (o == OC_RETURN && G->info > n) ? G->info - n : 20000;
+            long top = est + est / 4 + 64; long idx = 0;
+            for (long lw = step; lw <= top; lw += step, idx++) {
+                if (idx % nsl != isl) continue;
+                if (now_s() - t0 > deadline) { complete = 0; break; }
+                fc_t cc = c; cc.lwork = lw; cc.f7 = m7; cc.f8 = m8; int oo = run_child(&cc, timeout, cd, sizeof cd); judge_outcome(&cc, fam, oo, cd, &ref, ref_hash, n);
+            }
+        }
     }
     out_stats(PROP, "\"family\":\"%s\",\"mat\":%d,\"drv\":%d,\"P\":%d,\"single\":%d,\"K\":%ld,\"slice\":\"%d/%d\",\"complete\":%s,\"runs\":%ld,\"faults\":%ld,\"judged\":%ld,\"skipped\":%ld,\"violations\":%ld,\"distinct_outcomes\":%ld,"
               "\"aborts_with_diagnostic\":%ld,\"returns_info_gt_n\":%ld,\"successes\":%ld,\"hangs\":%ld,\"crashes\":%ld,\"wall_s\":%.2f",
